@@ -26,6 +26,8 @@ CHECKS['C11'] = checks.check_C11
 CHECKS['C17'] = checks.check_C17
 from . import analysis_check  # noqa: E402
 CHECKS['C18'] = analysis_check.check_C18
+from . import values_check  # noqa: E402
+CHECKS['C19'] = values_check.check_C19
 
 
 def replay(pid: str, path: str) -> int:
